@@ -20,7 +20,7 @@ def parse_line(l):
     return "RAW", l, {}
 
 
-def proj(fields=(), mon=None, fin=False, obs0=False):
+def proj(fields=(), mon=None, fin=False, obs0=False, finfields=("n", "r", "m")):
     """projection keeping the outcome of every N line, the listed observer fields, optionally F lines, and of the
     MON line its status plus the listed keys (mon=None drops the MON line, mon='*' keeps it whole)"""
     def f(lines):
@@ -31,7 +31,7 @@ def proj(fields=(), mon=None, fin=False, obs0=False):
                 out.append("N " + o + "".join(" %s=%s" % (x, d.get(x)) for x in fields))
             elif k == "F":
                 if fin:
-                    out.append("F " + o + "".join(" %s=%s" % (x, d.get(x)) for x in ("n", "r", "m")))
+                    out.append("F " + o + "".join(" %s=%s" % (x, d.get(x)) for x in finfields))
             elif k == "O":
                 if obs0:
                     out.append("O" + "".join(" %s=%s" % (x, d.get(x)) for x in fields))
@@ -59,14 +59,14 @@ PROPS = {
     "C07": dict(comps=["stream.revolve", "stream.disk", "stream.periodic", "stream.hrevolve", "fn.get_opt_0_table", "fn.get_opt_inf_table",
                        "fn.get_hopt_table", "fn.argmin", "seq."], project=proj(mon=("fwd", "dw", "dr")), drop_actions=True),
     "C08": dict(comps=["stream.", "hist."], project=proj(fields=("n", "r", "m"), mon=("status",), fin=True, obs0=True)),
-    "C09": dict(comps=["stream.", "hist."], project=proj(fields=("x", "run"), obs0=True)),
+    "C09": dict(comps=["stream.", "hist."], project=proj(fields=("x", "run"), obs0=True, fin=True, finfields=("x", "run"))),
     "C10": dict(comps=["hist.", "stream.basic", "stream.twolevel"], project=proj(fields=(), fin=True)),
-    "C11": dict(comps=["stream.", "hist.", "ctor."], project=proj(fields=("u",), obs0=True)),
+    "C11": dict(comps=["stream.", "hist.", "ctor."], project=proj(fields=("u",), obs0=True, fin=True, finfields=("u",))),
     "C12": dict(comps=["stream."], project=proj(mon="*")),
     "C13": dict(comps=["stream.twolevel", "hist.twolevel", "fn.n_advance"], project=proj(mon="*")),
     "C14": dict(comps=["stream.multistage", "fn.allocate_snapshots"], project=proj(mon="*")),
     "C15": dict(comps=["hist.", "inter.", "fresh.", "stream.multistage", "stream.mixed", "fn.allocate_snapshots"],
-                project=proj(fields=("n", "r", "m", "x", "run"), mon="*", fin=True, obs0=True)),   # everything but uses_storage_type
+                project=proj(fields=("n", "r", "m", "x", "run"), mon="*", fin=True, obs0=True, finfields=("n", "r", "m", "x", "run"))),   # everything but uses_storage_type
     "C16": dict(comps=["stream.mixed", "ctor.mixed", "hist.mixed", "fn.mixed_steps_tabulation", "fn.mixed_step_memoization"], project=proj()),
     "C17": dict(comps=["ctor.", "stream."], project=proj()),
     "C18": dict(comps=["stream.", "hist.", "val.", "inter."], project=lambda ls: [l for l in proj()(ls)]),
